@@ -264,7 +264,12 @@ class TaskCoordinator:
                         # Process completed tasks until running tasks
                         # have completed.
                         while runner.pending_task_count() > 0:
-                            process_completed_tasks()
+                            try:
+                                process_completed_tasks()
+                            except LabError:
+                                # A failing task (already logged) must not
+                                # replace the interrupt being handled.
+                                pass
                     except KeyboardInterrupt:
                         logger.info('Terminating running tasks.')
                         runner.stop()
